@@ -23,4 +23,16 @@ TEXT = {
                "panics are caught, allocation is measured per call. Exploration: cannot show absence of a hostile input outside the explored classes.",
     level_note="Trusted: runtime.MemStats accounting; the chosen bound 256 KiB + 96*len as the reading of 'small constant plus linear'.",
  ),
+ "C02": dict(
+    technique="property-based testing (rapid) of Channel.WriteFcall over a tapped in-memory conn, msize generated relative to each message's frame size; oracle built from the reference encoder",
+    design_ref="DESIGN.md section 4, C02",
+    level_text="Generated-input search concentrated on the boundary (every msize within +-40 of the message's frame size is reachable and frequently drawn); expected wire bytes are computed independently of the code under test.",
+    level_note="Trusted: refwire encoder, memconn tap. I/O faults are out of scope here.",
+ ),
+ "C03": dict(
+    technique="property-based testing (rapid) of Channel.ReadFcall on generated frame streams with generated read chunkings; absolute oracle from a reference decoder plus metamorphic frame-isolation check; native fuzzing with a reference frame splitter",
+    design_ref="DESIGN.md section 4, C03",
+    level_text="Generated-input search over sequences of frame classes x msize x chunkings; both an absolute and a metamorphic (same frame alone on a fresh channel) oracle; panics are caught and reported.",
+    level_note="Trusted: refwire decoder, memconn read plan. Nothing is asserted after an impossible length prefix or a truncated stream.",
+ ),
 }
